@@ -125,6 +125,8 @@ def detect(verif, seed, props):
             rc, o = sh([os.path.join(verif, "check"), p, "quick"], verif, timeout=1500, env=env)
             lines = [l for l in o.splitlines() if l.startswith(("VIOLATION", "OK ", "KNOWN-FINDING"))]
             out[p] = {"rc": rc, "wall": round(time.time() - t0, 1), "lines": [l[:300] for l in lines]}
+            if not lines:
+                out[p]["tail"] = o[-800:]
             for l in lines:
                 m = re.search(r"replay=(\S+)", l)
                 if m and os.path.exists(m.group(1)):
